@@ -18,6 +18,8 @@ import Clem.Props.C01.ComposeMemory
 import Clem.Props.C01.ComposeAgents
 import Clem.Props.C01.ComposeLog
 import Clem.Props.C01.ComposeCache
+import Clem.Props.C01.ComposeRefine
+import Clem.Props.C01.ComposeCacheRefine
 
 set_option linter.unusedSectionVars false
 
